@@ -14,6 +14,7 @@ import (
 	"reflect"
 	"regexp"
 	"runtime"
+	"strconv"
 	"strings"
 )
 
@@ -180,7 +181,7 @@ func c01TypedExpr(r *rand.Rand) string {
 
 var c01FuncBodies = []string{"", "", "return 1", "return a", "return [a, b]", "return len(a)", "a[0] = 1", "throw 1", "return fn", "return a...", "$A", "return $A", "a = 1; return a", "defer func(){ }()", "return func(...){ }"}
 
-// c01FuncLit writes one function literal or declaration: 0..6 parameters, with
+// c01FuncLit writes one function literal or declaration: 0..6 parameters (now and then hundreds), with
 // duplicates, variadic with and without a named parameter, named and anonymous.
 func c01FuncLit(r *rand.Rand) string {
 	var b strings.Builder
@@ -191,11 +192,18 @@ func c01FuncLit(r *rand.Rand) string {
 	b.WriteString("(")
 	np := []int{0, 0, 0, 1, 1, 2, 3, 4, 5, 6}[r.Intn(10)]
 	names := []string{"a", "b", "c", "d", "e", "f"}
+	if r.Intn(25) == 0 {
+		// a long parameter list (up to the hundreds)
+		np = c01ManyParams(r)
+		for len(names) < np {
+			names = append(names, "p"+strconv.Itoa(len(names)))
+		}
+	}
 	for i := 0; i < np; i++ {
 		if i > 0 {
 			b.WriteString(", ")
 		}
-		if i > 0 && r.Intn(10) == 0 {
+		if i > 0 && r.Intn(10) == 0 && np <= 6 {
 			b.WriteString(names[r.Intn(i)]) // duplicate parameter name
 		} else {
 			b.WriteString(names[i])
@@ -368,6 +376,9 @@ func c01Hole(r *rand.Rand, h string, depth int) string {
 		return c01Pick(r, c01ZeroOperands)
 	case "$W":
 		return c01Pick(r, c01ZeroMethodOperands)
+	}
+	if s, ok := c01HoleR4(r, h); ok {
+		return s
 	}
 	if depth < 2 && r.Intn(100) < 14 {
 		switch x := r.Intn(10); {
